@@ -120,10 +120,20 @@ impl Prop for C02P {
                 }
             }
         }
+        for (c, r) in crate::engine::util::shapes(3) {
+            if c > 0 {
+                v.push(format!("survivors {}x{}", c, r));
+            }
+        }
         v
     }
     fn run_unit(&self, unit: &str, ctx: &mut Ctx) {
         let parts: Vec<&str> = unit.split(' ').collect();
+        if parts[0] == "survivors" {
+            let (a, b) = parts[1].split_once('x').unwrap();
+            run_survivors(a.parse().unwrap(), b.parse().unwrap(), ctx);
+            return;
+        }
         let (pc, pr) = {
             let (a, b) = parts[1].split_once('x').unwrap();
             (a.parse::<usize>().unwrap(), b.parse::<usize>().unwrap())
@@ -149,7 +159,9 @@ impl Prop for C02P {
         "for every receiver (owned arrays of every shape; TooDeeView and TooDeeViewMut over every window of every parent; views of views (view of view, view_mut of view_mut, view of view_mut); views built directly over a slice, exact or with surplus cells) and every coordinate in (0..=dim+1)^2 plus huge values \
          (the fixed set 2^31, 2^32, 2^63, usize::MAX/2, MAX/2+1, MAX-1, MAX and every out-of-range index whose product with the receiver's stride wraps back into the column slice): \
          in range => x[(c,r)], x[r][c], col(c)[r], their mutable forms (IndexMut, col_mut(c)[r] through Index and IndexMut) and the four unchecked getters all yield the ADDRESS of the expected root cell; \
-         out of range => every checked accessor panics and the root is unchanged. A case is (receiver, coordinate) with all accessors probed; non-trivial = in-range coordinate; distinct by (receiver, coordinate)."
+         out of range => every checked accessor panics and the root is unchanged. \
+         Owned arrays reached through a history are covered too: every array of owning elements (shapes up to 3x3) that survives an operation in which the k-th call into caller code (iterator, Clone, Drop, comparator, key function) panicked and was caught - every operation instance and every k, and the fault-free runs - is probed the same way: every in-range coordinate must denote data()[row*num_cols()+col] through all six checked accessors, every other coordinate must panic. \
+         A case is (receiver, coordinate) with all accessors probed; non-trivial = in-range coordinate; distinct by (receiver, coordinate)."
             .into()
     }
     fn bound(&self, tier: Tier) -> String {
@@ -237,4 +249,47 @@ fn run_recv(kind: &str, pc: usize, pr: usize, w1: Option<Win>, w2: Option<Win>, 
             },
         );
     }
+}
+
+/// Owned arrays that survived a caught panic in caller code (or a fault-free operation): the checked accessors
+/// must still agree with data() on every in-range coordinate and reject every other one.
+fn run_survivors(c: usize, r: usize, ctx: &mut Ctx) {
+    use crate::engine::ledger::Tracked;
+    super::c11::for_each_survivor(c, r, ctx, &mut |mut t: TooDee<Tracked>, what: &str, cs: &mut Case| {
+        let (nc, nr) = (t.num_cols(), t.num_rows());
+        let len = t.data().len();
+        if nc.checked_mul(nr).map_or(true, |p| p > len) {
+            cs.fail("access:no-such-cell", format!("{}: the array reports size ({},{}) but data() has {} cells - in-range coordinates do not denote a cell of data()", what, nc, nr, len));
+            std::mem::forget(t);
+            return;
+        }
+        let base = t.data().as_ptr() as usize;
+        let sz = std::mem::size_of::<Tracked>();
+        for row in 0..=nr + 1 {
+            for col in 0..=nc + 1 {
+                let in_range = col < nc && row < nr;
+                let exp = base.wrapping_add((row.wrapping_mul(nc).wrapping_add(col)).wrapping_mul(sz));
+                let probes: [(&str, Result<usize, String>); 6] = [
+                    ("[(c,r)]", guarded(|| &t[(col, row)] as *const Tracked as usize)),
+                    ("[r][c]", guarded(|| &t[row][col] as *const Tracked as usize)),
+                    ("col(c)[r]", guarded(|| &t.col(col)[row] as *const Tracked as usize)),
+                    ("mut [(c,r)]", guarded(|| &mut t[(col, row)] as *mut Tracked as usize)),
+                    ("mut [r][c]", guarded(|| &mut t[row][col] as *mut Tracked as usize)),
+                    ("mut col_mut(c)[r]", guarded(|| &mut t.col_mut(col)[row] as *mut Tracked as usize)),
+                ];
+                for (name, got) in probes {
+                    match (in_range, got) {
+                        (true, Ok(a)) if a == exp => {}
+                        (true, Ok(a)) => cs.fail(&format!("access:wrong-cell:{}", name), format!("{}: ({},{}) through {} is at {:#x}, data()[{}] is at {:#x}", what, col, row, name, a, row * nc + col, exp)),
+                        (true, Err(m)) => cs.fail(&format!("access:panics-in-range:{}", name), format!("{}: ({},{}) through {} panicked: {}", what, col, row, name, m)),
+                        (false, Ok(_)) => cs.fail(&format!("access:no-panic-out-of-range:{}", name), format!("{}: ({},{}) is outside ({},{}) but {} returned", what, col, row, nc, nr, name)),
+                        (false, Err(_)) => {}
+                    }
+                }
+            }
+        }
+        if nc * nr != len || (nc == 0) != (nr == 0) {
+            std::mem::forget(t);
+        }
+    });
 }
